@@ -148,7 +148,7 @@ func checkC12(c *FileCase) *Violation {
 	resolved, ok := Resolve(c.File, c.Switches)
 	rsrc := Canon(resolved)
 	for _, opt := range []bool{true, false} {
-		o := Opts{Optimize: opt, FontPath: "@repo", Switches: c.Switches}
+		o := Opts{Optimize: opt, FontPath: "@repo", Switches: c.Switches, Auto: c16Auto}
 		r1 := Compile(src, o)
 		if r1.Panic != nil || r1.Budget {
 			return viol("crash", "%s\n--- source\n%s", r1.Describe(), src)
@@ -195,6 +195,8 @@ func genC12(t *rapid.T) *FileCase {
 	cfg := DefaultFileCfg()
 	cfg.CF.MaxDepth = 3
 	cfg.CF.PS = 5
+	cfg.CF.Auto = c16Auto
+	cfg.CF.AutoP = 5
 	cfg.CF.PSNoDirectContinue = excluded("C12", "continue-direct-in-poryswitch-case")
 	cfg.CF.PSNestedFallback = excluded("C12", "nested-poryswitch-without-match-in-unselected-case")
 	cfg.MaxTops = 4
